@@ -313,11 +313,11 @@ fn tokenize_include(
         } else if state == 0 && c == b'"' {
             // start a quoted filename
             state = 2;
-        } else if state == 2 && tokenizer::is_pathchar(c) {
-            // first byte of a quoted filename
+        } else if state == 2 && c != b'"' && c != b'\0' && c != b'\n' {
+            // first byte of a quoted filename; between the quotes any character is part of the name
             state = 3;
             fname_idx_start = *bytepos;
-        } else if state == 3 && tokenizer::is_pathchar(c) {
+        } else if state == 3 && c != b'"' && c != b'\0' && c != b'\n' {
             // in a quoted filename
         } else if state == 3 && c == b'"' {
             // end of non quoted filename
